@@ -132,7 +132,7 @@ func c15Run(b *core.B) {
 	r := b.Rng(1)
 	n := 12000
 	if b.Tier == core.Thorough {
-		n = 600000
+		n = 2000000
 	}
 	var idx int64
 	one := func(f c15Fault, ci int, prefix, suffix string) {
